@@ -297,6 +297,13 @@ def _opt(f, v):
 
 
 def ser_rec(x):
+    try:
+        return _ser_rec(x)
+    except Exception:                          # a malformed record (e.g. url None): never equals a model rendering
+        return 'X<%s>' % json.dumps(x)
+
+
+def _ser_rec(x):
     return '(' + ','.join([ser_str(x[0]), _opt(ser_str, x[1]), _opt(ser_str, x[2]), _ST[x[3]], str(x[4]), str(x[5]),
                            _opt(str, x[6]), _opt(lambda l: 'L%d' % LINKS.index(l), x[7]), str(x[8]),
                            _opt(ser_str, x[9]), _opt(str, x[10]), _opt(ser_str, x[11])]) + ')'
@@ -649,11 +656,11 @@ def correspondence(ctx):
 
 def search(ctx, disagreements):
     """look harder for a history on which the table differs from the keyed-map reference
-    (no Coq in the loop): 10x volume, longer histories, all modes."""
+    (no Coq in the loop): 5x volume, longer histories, all modes."""
     if getattr(ctx, 'c14_violations', None):
         return []                     # the correspondence run already holds concrete failing histories
     r = common.rng('c14-search')
-    cases = _histories(r, 4000, 80) + _histories(r, 200, 400)
+    cases = _histories(r, 1600, 80) + _histories(r, 60, 400)
     results, bad = _impl(cases)
     return _violations(cases, results, bad)
 
